@@ -101,6 +101,35 @@ func Load(repo, tier string) (*Ctx, error) {
 			c.Scope = append(c.Scope, fn)
 		}
 	}
+	// generic functions and methods that are never instantiated are not in AllFunctions: add their generic bodies
+	for _, sp := range prog.AllPackages() {
+		if !InScopePath(sp.Pkg.Path()) {
+			continue
+		}
+		var add func(f *ssa.Function)
+		add = func(f *ssa.Function) {
+			if f == nil || f.Blocks == nil || c.inScope[f] {
+				return
+			}
+			c.inScope[f] = true
+			c.Scope = append(c.Scope, f)
+			for _, a := range f.AnonFuncs {
+				add(a)
+			}
+		}
+		for _, m := range sp.Members {
+			switch x := m.(type) {
+			case *ssa.Function:
+				add(x)
+			case *ssa.Type:
+				if n, ok := x.Type().(*types.Named); ok {
+					for i := 0; i < n.NumMethods(); i++ {
+						add(prog.FuncValue(n.Method(i)))
+					}
+				}
+			}
+		}
+	}
 	sort.Slice(c.Scope, func(i, j int) bool { return c.Scope[i].String() < c.Scope[j].String() })
 	n := 0
 	for _, p := range pkgs {
